@@ -173,6 +173,13 @@ theorem processAll_eq : processAll reg opts plug =
     { errors := canonErrs (forestErrs (preDev reg opts plug).forest ++ (devStage reg opts plug (preDev reg opts plug).forest).2.1),
       forest := (devStage reg opts plug (preDev reg opts plug).forest).1, reg := reg } := by
   rfl
+
+/-- A property of the state that the augment loop and `FixChoice` everywhere preserve holds after the
+retry rounds (the state the reporting sweep starts from). -/
+theorem afterRounds_state (P : PState → Prop)
+    (hloop : ∀ fuel mods s, P s → P (augmentLoop reg fuel mods s).2)
+    (hfix : ∀ s, P s → P (fixAll s)) (h0 : P (pstate0 reg opts plug)) : P (afterRounds reg opts plug).2 :=
+  Rounds.rounds_ind_state reg P hloop hfix _ _ _ _ (hfix _ (hloop _ _ _ h0))
 end Stages
 
 /-! ### `updateAt`, `getAt` -/
